@@ -38,16 +38,28 @@ Definition K_TY : bytes := [116; 121].
 Definition K_DVTY : bytes := [68; 118; 84; 121].
 Definition K_MD : bytes := [109; 100].
 
+(* strings.SplitN(v, "=", 2): key, value after the FIRST '=' (None: no '=') *)
+Fixpoint cut_eq (s : bytes) : bytes * option bytes :=
+  match s with
+  | [] => ([], None)
+  | c :: r => if c =? 61 then ([], Some r) else let '(k, v) := cut_eq r in (c :: k, v)
+  end.
+
+(* strings.ToLower on the ASCII letters (the four keys are ASCII) *)
+Definition lower (s : bytes) : bytes := map (fun c => if (65 <=? c) && (c <=? 90) then c + 32 else c) s.
+Definition K_DVTY_L : bytes := [100; 118; 116; 121].   (* "dvty" *)
+
 (* parseTXT (mdnsService.go:53) *)
 Fixpoint parseTXT_loop (txt : list bytes) : bytes :=
   match txt with
   | [] => []
   | v :: r =>
-      match split_eq v with
-      | k :: val :: _ =>
-          if bytes_eqb k K_MODEL || bytes_eqb k K_TY || bytes_eqb k K_DVTY || bytes_eqb k K_MD then val
+      match cut_eq v with
+      | (k, Some val) =>
+          let k' := lower k in
+          if bytes_eqb k' K_MODEL || bytes_eqb k' K_TY || bytes_eqb k' K_DVTY_L || bytes_eqb k' K_MD then val
           else parseTXT_loop r
-      | _ => parseTXT_loop r
+      | (_, None) => parseTXT_loop r
       end
   end.
 Definition parseTXT (txt : list bytes) : bytes :=
